@@ -121,6 +121,58 @@ theorem run_results_indep (s : LogState) (ops : List Op) (hdoc : ∀ op ∈ ops,
     | callBad o => simp [Op.documented] at hd
     | _ => rfl
 
+/-! ### Every exit path; the level restored is the one in force before THIS call -/
+
+/-- **Whatever the exit path.**  `Outcome` has three values — the body returns, raises an `Exception`, or is left
+    through a `BaseException` that is not an `Exception` (KeyboardInterrupt, SystemExit) — and `call_restores` /
+    `call_state_unchanged` / `run_restores` quantify over all three.  That the third one is not covered for free:
+    a wrapper that restores after a normal return and in an `except Exception` handler instead of a `finally`
+    (`wrapVerboseExceptOnly`, seeded change C20-5) restores on the first two exits and LEAKS the per-call level on
+    the third, from every set-up state and for every requested level other than the standing one — whereas the
+    modelled wrapper restores on all three. -/
+theorem except_only_restore_leaks_on_interrupt (s : LogState) (c tmp : Level) (h : s.console = some c)
+    (hne : tmp ≠ c) :
+    (stepExceptOnly s (.call (some tmp) .returns)).1 = s ∧
+    (stepExceptOnly s (.call (some tmp) .raises)).1 = s ∧
+    (stepExceptOnly s (.call (some tmp) .interrupts)).1.console = some tmp ∧
+    (stepExceptOnly s (.call (some tmp) .interrupts)).1 ≠ s ∧
+    ∀ o, (step s (.call (some tmp) o)).1 = s := by
+  cases s with
+  | mk console disabled =>
+    simp only at h
+    subst h
+    refine ⟨rfl, rfl, rfl, ?_, fun o => call_state_unchanged _ _ o⟩
+    intro e
+    have : (stepExceptOnly { console := some c, disabled := disabled } (.call (some tmp) .interrupts)).1.console
+        = some c := by rw [e]
+    simp [stepExceptOnly, stepWith, wrapVerboseExceptOnly, setLevel] at this
+    exact hne this
+
+/-- **The level put back is the one in force immediately before THIS call**, after any history: appending a call
+    (any verbosity, any of the three exits) to any history — earlier calls, `set_level`s, `set_up`s, `disable`s in
+    any order — does not change where the history ends. -/
+theorem call_restores_after_any_history (s : LogState) (pre : List Op) (v : Option Level) (o : Outcome) :
+    run s (pre ++ [.call v o]) = run s pre := by
+  simp only [run, List.foldl_append, List.foldl_cons, List.foldl_nil]
+  exact call_state_unchanged _ v o
+
+/-- **Restoration does not depend on a level saved by an earlier call.**  A first call (which saved and restored
+    the level `c`), then `set_level(l)`, then a second call: the second call puts `l` back — not `c`, the level
+    the first call had saved — whatever the verbosities and exits of the two calls; and any number of further
+    calls leaves it there. -/
+theorem restore_independent_of_earlier_call (s : LogState) (c : Level) (h : s.console = some c)
+    (v1 v2 : Option Level) (o1 o2 : Outcome) (l : Level) (later : List Op) (hl : ∀ op ∈ later, op.isCall = true) :
+    (run s ([.call v1 o1, .setLevel l, .call v2 o2] ++ later)).console = some l := by
+  rw [run_calls_irrelevant]
+  have hlater : later.filter (fun op : Op => !op.isCall) = [] :=
+    List.filter_eq_nil_iff.mpr (fun op hop => by simp [hl op hop])
+  have hfil : (([Op.call v1 o1, Op.setLevel l, Op.call v2 o2] ++ later).filter fun op : Op => !op.isCall)
+      = [Op.setLevel l] := by
+    rw [List.filter_append, hlater]
+    simp [List.filter_cons, Op.isCall]
+  rw [hfil]
+  simp [run, step, stepWith, setLevel, h]
+
 /-! ### A verbosity outside the documented values (`verbose='debug'`, `verbose=10`, …) -/
 
 /-- The LEVEL guarantee does not need a valid verbosity: whatever was requested, in every state and
@@ -208,5 +260,12 @@ example : (traj init demo)[3]? = (traj init demo)[2]? :=
 
 example : (step (setUp init (some .warning)) (.call (some .debug) .raises)).2.map (·.during)
     = some (some .debug) := override_in_force _ .warning (by decide) _ _
+
+-- the C20-5 situation: set up at WARNING, verbose=DEBUG, the call is left through KeyboardInterrupt: the modelled wrapper is
+-- back at WARNING, the except-only variant stays at DEBUG; then set_level between two calls
+example : (step (setUp init (some .warning)) (.call (some .debug) .interrupts)).1.console = some .warning := by decide
+example : (stepExceptOnly (setUp init (some .warning)) (.call (some .debug) .interrupts)).1.console = some .debug := by decide
+example : (run (setUp init (some .warning)) [.call (some .debug) .interrupts, .setLevel .critical, .call (some .info) .raises]).console
+    = some .critical := by decide
 
 end C20
